@@ -25,6 +25,37 @@ check("C14",
       "concretised from finite pools of spellings.",
       "DESIGN.md section 5, C14")
 
+DEC_NOTE = ("Trusts TLC, the renderer/projection of harness/decio.py (abstract names, words, literals and model names "
+            "are concretised from pools covering the label alphabet, every literal form and all 135 model names; observed "
+            "values are mapped back by exact float equality) and the installed particle data for the PDG conjugation relation.")
+
+check("C01",
+      "TLA+ statement-level semantics of parse() (spec/DecParse.tla, machine in DecGen.tla) model-checked with TLC; "
+      "TLC-generated and random files parsed by the real code, observations validated by TLC (spec/DecTrace.tla)",
+      "TLC checks on every file of the bounded universe that the phase machine of parse() yields FirstBlocks (one table per "
+      "distinct mother, first block kept, file order) with every line's fields as written; every file of that universe (quick: "
+      "a rotating window), simulated longer files and seeded random files of up to 40 statements are rendered with pooled "
+      "spellings, parsed by the real DecFileParser, and the projected public answers (mother list, number_of_decays, "
+      "list_decay_modes, build_decay_chains, print_decay_modes) are judged clause by clause by TLC against the specification.",
+      DEC_NOTE, "DESIGN.md section 5, C01")
+check("C03",
+      "TLA+ semantics of CDecay / ChargeConj (spec/DecParse.tla P_Conj, ConjOf) model-checked with TLC; files parsed three "
+      "ways by the real code and validated by TLC (spec/DecTrace.tla JudgeC03)",
+      "TLC checks C03_Exact / SourcesUntouched / InclOff on every file of the bounded universe (PDG pair, declared pairs in both "
+      "orientations, self-conjugate and unknown names, CopyDecay as source, Decay precedence). Each generated file (exhaustive "
+      "universe, simulated, random over the real EvtGen names) is parsed with conjugates on, off and with the CDecay statements "
+      "removed; TLC judges that tables are added exactly for CDecay names with a source, that each is the line-by-line conjugate "
+      "of the *observed* source under ConjOf, and that nothing else changed.",
+      DEC_NOTE, "DESIGN.md section 5, C03")
+check("C05",
+      "TLA+ semantics of ModelAlias / Define replacement (spec/DecParse.tla P_Alias, P_Values, ExpandDefs) model-checked with TLC; "
+      "file and textual expansion both parsed by the real code and validated by TLC (spec/DecTrace.tla JudgeC05)",
+      "TLC checks C05_Expansion (parse(src) = parse(ExpandDefs(src))) on every file of the bounded universe. Each generated file and "
+      "its expansion (computed by the harness, re-checked by TLC to equal ExpandDefs) are parsed by the real code; TLC judges that "
+      "both give the same tables and that model/parameters of every table - Decay, copied, conjugated - are the expansion with the "
+      "last definition winning.",
+      DEC_NOTE, "DESIGN.md section 5, C05")
+
 ALL = [f"C{i:02d}" for i in range(1, 21)]
 
 
